@@ -228,7 +228,7 @@ def _arm(src, want):
     res = ppci_pp(src)
     if res[0] != "ok":
         return "`%s` -> %s" % (src.replace("\n", " | "), res[2])
-    if res[1] != want.split():
+    if res[1] != ppgen.lex(want):
         return "`%s` -> `%s`, gcc -E gives `%s`" % (src.replace("\n", " | "), " ".join(res[1]), want)
     return None
 
